@@ -316,28 +316,54 @@ def woven_files():
 # ---------------------------------------------------------------------------------------------------
 # step 4: run op streams
 
-def run_impl(ops_path, out_path, binary=None, timeout=600, env=None):
+def _run_watched(argv, fin, fout, ferr, env, cwd, watch_path, stall, hard):
+    """Run a harness process.  It is killed only when it makes no progress (its result file does not grow) for `stall`
+    seconds, or after `hard` seconds in all: a loaded machine slows a run down but does not stop its output, a deadlock
+    does.  Returns (returncode or -9, timed_out)."""
+    import time
+    p = subprocess.Popen(argv, stdin=fin, stdout=fout, stderr=ferr, env=env, cwd=cwd)
+    t0 = last = time.time()
+    size = -1
+    while True:
+        try:
+            p.wait(timeout=1.0)
+            return p.returncode, False
+        except subprocess.TimeoutExpired:
+            pass
+        now = time.time()
+        try:
+            sz = os.path.getsize(watch_path)
+        except OSError:
+            sz = -1
+        if sz != size:
+            size, last = sz, now
+        if now - last > stall or now - t0 > hard:
+            p.kill()
+            p.wait()
+            return -9, True
+
+
+def run_impl(ops_path, out_path, binary=None, timeout=300, env=None):
+    """`timeout` is the longest the harness may go without writing a result line; the whole run may take 12x that."""
     binary = binary or HARNESS
     e = dict(os.environ, GOMEMLIMIT="4GiB")
     if env:
         e.update(env)
     argv = binary if isinstance(binary, list) else [binary]
+    errp = out_path + ".stderr"
     if isinstance(binary, list) and binary and binary[0].endswith(".test"):
         # package-main driver: a `go test -c` binary that writes its result lines to $VERIF_OUT
         e["VERIF_OUT"] = out_path
-        with open(ops_path) as fin:
-            try:
-                p = subprocess.run(argv, stdin=fin, stdout=subprocess.PIPE, stderr=subprocess.STDOUT, timeout=timeout, env=e,
-                                   cwd=os.path.join(BUILD))
-                return (0 if p.returncode == 0 else p.returncode), p.stdout.decode(errors="replace")[-4000:]
-            except subprocess.TimeoutExpired:
-                return -9, "timeout"
-    with open(ops_path) as fin, open(out_path, "w") as fout:
-        try:
-            p = subprocess.run(argv, stdin=fin, stdout=fout, stderr=subprocess.PIPE, timeout=timeout, env=e)
-            return p.returncode, p.stderr.decode(errors="replace")[-4000:]
-        except subprocess.TimeoutExpired:
+        with open(ops_path) as fin, open(errp, "wb") as ferr:
+            rc, to = _run_watched(argv, fin, ferr, subprocess.STDOUT, e, os.path.join(BUILD), out_path, timeout, 12 * timeout)
+        if to:
             return -9, "timeout"
+        return rc, open(errp, "rb").read().decode(errors="replace")[-4000:]
+    with open(ops_path) as fin, open(out_path, "w") as fout, open(errp, "wb") as ferr:
+        rc, to = _run_watched(argv, fin, fout, ferr, e, None, out_path, timeout, 12 * timeout)
+    if to:
+        return -9, "timeout"
+    return rc, open(errp, "rb").read().decode(errors="replace")[-4000:]
 
 
 def run_check(ops_path, impl_path, timeout=600):
